@@ -123,12 +123,43 @@ pub fn j_count(c: i128, ts: TimeScale, dt: Option<(i64, i128)>, out: &mut Local)
 /// the five alternate formatters print the epoch in UTC / TAI / TT / TDB / ET
 pub fn j_alt(c: i128, ts: TimeScale, leap: &LeapTable, etdb: &EtDb, out: &mut Local) {
     let args = vec![scale_name(ts).to_string(), enc(c)];
-    let Some(tai) = scales::to_tai(c, ts, leap) else {
-        out.dc(0);
-        return;
-    };
     let e = Epoch::from_duration(mk(c), ts);
     let r = guard(|| (format!("{e:?}"), format!("{e:x}"), format!("{e:X}"), format!("{e:e}"), format!("{e:E}")));
+    // the same decomposition reached two ways: the alternate formatter / to_gregorian_str(other scale) against the
+    // default text form of the converted epoch (conversion accuracy itself is C05-C07's business)
+    let cross = guard(|| {
+        let mut bad: Option<(String, String, String)> = None;
+        for (name, shown, t2) in [("debug", format!("{e:?}"), TimeScale::UTC), ("lowerhex", format!("{e:x}"), TimeScale::TAI), ("upperhex", format!("{e:X}"), TimeScale::TT), ("lowerexp", format!("{e:e}"), TimeScale::TDB), ("upperexp", format!("{e:E}"), TimeScale::ET)] {
+            let via = format!("{}", e.to_time_scale(t2));
+            if shown != via && bad.is_none() {
+                bad = Some((format!("{name}-differs-from-display-of-converted-epoch"), via, shown));
+            }
+        }
+        for t2 in SCALES {
+            let a = e.to_gregorian_str(t2);
+            let b = e.to_time_scale(t2).to_gregorian_str(t2);
+            if a != b && bad.is_none() {
+                bad = Some((format!("to_gregorian_str-other-scale-differs,{}", scale_name(t2)), b, a));
+            }
+        }
+        bad
+    });
+    match cross {
+        Ok(None) => {}
+        Ok(Some((sig, want, got))) => {
+            out.viol("c09.alt", sig, args, want, got);
+            return;
+        }
+        Err(p) => {
+            out.viol("c09.alt", format!("panic:{}", p.class()), args, "no panic".into(), format!("{} {}", p.loc, p.msg));
+            return;
+        }
+    }
+    // the model conversions below need the TAI count; ET/TDB sources (no closed-form inverse in the model) end here
+    let Some(tai) = scales::to_tai(c, ts, leap) else {
+        out.ok(28, true, (ts as u64) | 1 << 9);
+        return;
+    };
     match r {
         Ok((dbg, lx, ux, le, ue)) => {
             let w_tai = text::render(tai, TimeScale::TAI);
@@ -164,7 +195,7 @@ pub fn j_alt(c: i128, ts: TimeScale, leap: &LeapTable, etdb: &EtDb, out: &mut Lo
                     checked += 1;
                 }
             }
-            out.ok(5, ts != TimeScale::TAI, (ts as u64) | (checked as u64) << 4 | (w_utc.is_some() as u64) << 6);
+            out.ok(33, ts != TimeScale::TAI, (ts as u64) | (checked as u64) << 4 | (w_utc.is_some() as u64) << 6);
             if out.want_sample(true) {
                 out.sample("c09.alt", args, format!("{dbg} | {lx} | {ux} | {le} | {ue}"), true);
             }
@@ -199,7 +230,7 @@ pub fn run(rep: &mut Report) {
     for ts in SCALES {
         let el: Vec<i128> = lattice::el(ts, if q { 4 } else { 32 }, Some((-2, 40)));
         sweep(rep, &format!("c09.count[{}]", scale_name(ts)), el.len() as u64, |i, out| j_count(el[i as usize], ts, None, out));
-        if ts != TimeScale::ET && ts != TimeScale::TDB {
+        {
             sweep(rep, &format!("c09.alt[{}]", scale_name(ts)), el.len() as u64, |i, out| j_alt(el[i as usize], ts, &leap, &etdb, out));
         }
     }
